@@ -18,7 +18,7 @@ CFG = {
     "technique": "Coq proof (reflection of a Fourier-Motzkin/in-circle checker over Q; invariants by induction over "
                  "the insertion sequence) + vm_compute correspondence check",
     "design_ref": "DESIGN.md §4 C20",
-    "n_quick": 96, "n_thorough": 1200,
+    "n_quick": 128, "n_thorough": 1200,
     "rule": "point sets in general position (no 3 collinear, no 4 concyclic: exact integer rejection) on integer grids "
             "(extent <= 127 so that every float64 operation of the implementation incl. super-triangle tests is exact), "
             "3-200 points, uniform / clustered / flat-hull / near-line / strip / ring, random insertion order, scaled "
